@@ -512,6 +512,9 @@ def run(ctx):
 
     # --- R-CONST DEATH < OSSIFIED
     r = rules['C01.6-timer']
+    from rules import libtab as _lt
+    for inst_, v_ in sorted(_lt.sig_blocknone_sites(db, rep, prog).items()):
+        r.check(v_[0], inst_, v_[1], v_[2], v_[3])
     death = macro_const(db, 'qmail-queue.c', 'DEATH')
     oss_s = macro_const(db, 'qmail-send.c', 'OSSIFIED')
     oss_c = macro_const(db, 'qmail-clean.c', 'OSSIFIED')
